@@ -44,4 +44,7 @@ def main():
 
 
 if __name__ == '__main__':
-    sys.exit(main())
+    rc = main()
+    sys.stdout.flush()
+    sys.stderr.flush()
+    os._exit(rc)   # skip finalizers of pools the library leaves open (noise on stderr only)
